@@ -107,6 +107,18 @@ def parseLoc (s : String) : TokLoc :=
 def metricCode (s : String) : Nat := if s == "dot_product" then 1 else if s == "cosine" then 2 else 0
 def optCode (s : String) : Nat := if s == "latency" then 1 else if s == "memory-efficient" then 2 else 0
 
+/-- bleve's compose step for a composite field (`TokenFrequencies.MergeAll` over the document's
+    ordinary fields other than `_id`, in document order): per term the frequencies add up and the
+    locations are concatenated, every location naming the field it comes from. -/
+def composeToks (fields : List FieldIn) : List Tok :=
+  let src := fields.filter (fun f => f.kind == FKind.fld && f.name != strBytes "_id")
+  let all : List Tok := src.flatMap (fun f => f.toks.map (fun t =>
+    { t with locs := t.locs.map (fun l => { l with src := f.name }) }))
+  let terms := (all.map (·.term)).eraseDups
+  terms.map (fun tm =>
+    let same := all.filter (fun t => t.term == tm)
+    { term := tm, freq := (same.map (·.freq)).foldl (· + ·) 0, locs := same.flatMap (·.locs) })
+
 /-- Parse the lines of one batch (after the `batch` line, up to `endbatch`). -/
 def parseBatchLines (cmds : List Cmd) : Batch :=
   let step := fun (acc : Batch) (c : Cmd) =>
@@ -118,7 +130,7 @@ def parseBatchLines (cmds : List Cmd) : Batch :=
       | x :: rest => { d with fields := (f x :: rest).reverse })
     match c.op with
     | "doc" => acc ++ [({ id := unhx (c.arg 0), plain := c.getD "plain" "0" == "1", fields := [] } : DocIn)]
-    | "comp" => updLastDoc (fun d => { d with fields := d.fields ++ [({ kind := FKind.comp, name := strBytes (c.arg 0), typ := 99, len := c.nat "len" 0, dv := c.getD "dv" "0" == "1" } : FieldIn)] })
+    | "comp" => updLastDoc (fun d => { d with fields := d.fields ++ [({ kind := FKind.comp, name := strBytes (c.arg 0), typ := 99, len := c.nat "len" 0, dv := c.getD "dv" "0" == "1", toks := (if c.getD "compose" "0" == "1" then composeToks d.fields else []) } : FieldIn)] })
     | "fld" => updLastDoc (fun d => { d with fields := d.fields ++ [({ kind := FKind.fld, name := strBytes (c.arg 0), typ := c.nat "typ" 116, stored := c.getD "st" "0" == "1", dv := c.getD "dv" "0" == "1", len := c.nat "len" 0, ap := parseNatList "," (c.getD "ap" "-"), val := parseVal (c.getD "val" "."), shape := (c.get? "shape").bind (fun v => if v.isEmpty then none else some (unhx v)) } : FieldIn)] })
     | "syn" => updLastDoc (fun d => { d with fields := d.fields ++ [({ kind := FKind.syn, name := strBytes (c.arg 0) } : FieldIn)] })
     | "def" => updLastField (fun f => { f with defs := f.defs ++ [({ lhs := unhx (c.arg 0), rhs := unhxList (c.getD "rhs" "-") } : SynDefn)] })
